@@ -292,6 +292,8 @@ def apply_op(w, op, args, mi):
         return ufl.sign(a)
     if op in MATH_OPS:
         return getattr(ufl, op)(a)
+    if op == "atan2":
+        return ufl.atan2(a, b)
     if op == "variable":
         return ufl.variable(a)
     if op in ("grad", "nabla_grad", "div", "nabla_div", "curl"):
